@@ -256,7 +256,10 @@ fn faulted_run(b: &Base, k: u64, once: bool, torn: bool, rng: &mut Rng, out: &mu
         *out.outcomes.entry("fault_not_reached").or_default() += 1;
         return;
     };
-    debug_assert!(!fe.ok);
+    if fe.ok {
+        out.notes.push(format!("harness inconsistency: backend call {k} was reached but did not fail: {replay}"));
+        return;
+    }
     let segs: Vec<&[VLatchEvent]> = r.latch_segments.iter().map(|s| s.as_slice()).collect();
     let wrapper = wrapper_of_backend_call(&segs, k, 0);
     let best_effort = wrapper == Some(VLatchCall::WriteBestEffort);
@@ -519,12 +522,18 @@ fn merge(out: &mut Out, o: Out) {
 }
 
 fn main() {
-    silence_panics();
+    if std::env::var("C08_SHOW_PANICS").is_err() {
+        silence_panics();
+    }
     let seed = seed_from_env();
     let thorough = tier_is_thorough();
     let mut rng = Rng::new(seed);
     // (number of histories, ops per history, faults per stratum, exhaustive?)
-    let plans: Vec<(usize, usize, usize, bool)> = if thorough {
+    // "search": the directed search after a model/implementation difference (about 4x quick)
+    let search = std::env::args().nth(1).as_deref() == Some("search");
+    let plans: Vec<(usize, usize, usize, bool)> = if search {
+        vec![(4, 4, 0, true), (30, 24, 2, false)]
+    } else if thorough {
         vec![(12, 5, 0, true), (80, 30, 2, false)]
     } else {
         vec![(2, 3, 0, true), (12, 18, 1, false)]
@@ -554,8 +563,14 @@ fn main() {
                 let (hi, h, jr, ps, ex) = &hists[i];
                 let mut o = new_out();
                 let mut r = jr.clone();
-                let p = plan_history(seed, *hi, h, &mut r, *ps, *ex, &mut o);
-                planned.lock().unwrap().push((*hi, o, p));
+                let p = match rv_harness::catch(|| plan_history(seed, *hi, h, &mut r, *ps, *ex, &mut o)) {
+                    Ok(p) => p,
+                    Err(p) => {
+                        o.notes.push(format!("harness worker panicked planning history {hi}: {p}"));
+                        None
+                    }
+                };
+                planned.lock().unwrap_or_else(|e| e.into_inner()).push((*hi, o, p));
             });
         }
     });
@@ -589,8 +604,15 @@ fn main() {
                 }
                 let (bi, ks, cr) = &chunks[i];
                 let (_, b, ex) = &bases[*bi];
-                let o = do_chunk(b, ks, *ex, cr.clone());
-                results.lock().unwrap().push((i, o));
+                let o = match rv_harness::catch(|| do_chunk(b, ks, *ex, cr.clone())) {
+                    Ok(o) => o,
+                    Err(p) => {
+                        let mut o = new_out();
+                        o.notes.push(format!("harness worker panicked on history {} fault indices {:?}: {p}", bases[*bi].0, ks));
+                        o
+                    }
+                };
+                results.lock().unwrap_or_else(|e| e.into_inner()).push((i, o));
             });
         }
     });
